@@ -39,6 +39,7 @@ pub struct G {
     pub body_tail: Ghost<Option<BlockId>>,
     pub pre: Ghost<Option<BlockId>>,
     pub calls: Ghost<Seq<Lowered>>,             // every lower_block call so far, in order
+    pub stmt_at: Ghost<Option<BlockId>>,        // the block the statement's own op (its condition reads) was pushed into
 }
 // one lower_block call: where it started, under which loop context, and the open block it ended in (None: no fall-through)
 pub struct Lowered { pub start: Option<BlockId>, pub ctx: Option<LoopContext>, pub tail: Option<BlockId> }
@@ -59,22 +60,22 @@ impl G {
     pub fn new_block(&mut self, cause: Option<UnreachableCause>) -> (r: BlockId)
         ensures old(self).fresh(r), final(self).next@ == r.0 as nat + 1, final(self).next@ > old(self).next@,
                 final(self).term@ == old(self).term@, final(self).body_start@ == old(self).body_start@, final(self).body_ctx@ == old(self).body_ctx@,
-                final(self).body_tail@ == old(self).body_tail@, final(self).pre@ == old(self).pre@, final(self).calls@ == old(self).calls@,
+                final(self).body_tail@ == old(self).body_tail@, final(self).pre@ == old(self).pre@, final(self).stmt_at@ == old(self).stmt_at@, final(self).calls@ == old(self).calls@,
     { unimplemented!() }
     #[verifier::external_body]
     pub fn ensure_block(&mut self, cursor: &mut Cursor) -> (r: BlockId)
         ensures final(cursor).block == Some(r), !old(self).fresh(r) || final(self).next@ > r.0 as nat, final(self).next@ >= old(self).next@, !final(self).fresh(r),
-                final(self).term@ == old(self).term@, final(self).pre@ == Some(r),
+                final(self).term@ == old(self).term@, final(self).pre@ == Some(r), final(self).stmt_at@ == old(self).stmt_at@,
                 final(self).body_start@ == old(self).body_start@, final(self).body_ctx@ == old(self).body_ctx@, final(self).body_tail@ == old(self).body_tail@, final(self).calls@ == old(self).calls@,
     { unimplemented!() }
     #[verifier::external_body]
     pub fn set_terminator(&mut self, b: BlockId, t: Terminator)
-        ensures final(self).term@ == old(self).term@.insert(b, t), final(self).next@ == old(self).next@, final(self).pre@ == old(self).pre@,
+        ensures final(self).term@ == old(self).term@.insert(b, t), final(self).next@ == old(self).next@, final(self).pre@ == old(self).pre@, final(self).stmt_at@ == old(self).stmt_at@,
                 final(self).body_start@ == old(self).body_start@, final(self).body_ctx@ == old(self).body_ctx@, final(self).body_tail@ == old(self).body_tail@, final(self).calls@ == old(self).calls@,
     { unimplemented!() }
     #[verifier::external_body]
     pub fn push_stmt(&mut self, program: &mut Program, b: BlockId, parent: Option<StmtId>) -> (r: StmtId)
-        ensures final(self).term@ == old(self).term@, final(self).next@ == old(self).next@, final(self).pre@ == old(self).pre@,
+        ensures final(self).stmt_at@ == Some(b), final(self).term@ == old(self).term@, final(self).next@ == old(self).next@, final(self).pre@ == old(self).pre@,
                 final(self).body_start@ == old(self).body_start@, final(self).body_ctx@ == old(self).body_ctx@, final(self).body_tail@ == old(self).body_tail@, final(self).calls@ == old(self).calls@,
     { unimplemented!() }
     #[verifier::external_body]
@@ -85,7 +86,7 @@ impl G {
     pub fn lower_block(&mut self, body: &Body, cursor: Cursor, loop_ctx: Option<LoopContext>, parent: Option<StmtId>, scopes: &mut Scopes, program: &mut Program) -> (r: Cursor)
         ensures final(self).body_start@ == cursor.block, final(self).body_ctx@ == loop_ctx, final(self).body_tail@ == r.block,
                 final(self).calls@ == old(self).calls@.push(Lowered { start: cursor.block, ctx: loop_ctx, tail: r.block }),
-                final(self).next@ >= old(self).next@, final(self).pre@ == old(self).pre@,
+                final(self).next@ >= old(self).next@, final(self).pre@ == old(self).pre@, final(self).stmt_at@ == old(self).stmt_at@,
                 r.block is Some ==> !final(self).fresh(r.block->Some_0),
                 // a cursor's block is open: it has no terminator yet
                 r.block is Some ==> !final(self).term@.dom().contains(r.block->Some_0),
@@ -95,12 +96,12 @@ impl G {
     { unimplemented!() }
     #[verifier::external_body]
     pub fn kill_scopes_through(&mut self, b: BlockId, scopes: &Scopes, boundary: ScopeId)
-        ensures final(self).term@ == old(self).term@, final(self).next@ == old(self).next@, final(self).pre@ == old(self).pre@,
+        ensures final(self).term@ == old(self).term@, final(self).next@ == old(self).next@, final(self).pre@ == old(self).pre@, final(self).stmt_at@ == old(self).stmt_at@,
                 final(self).body_start@ == old(self).body_start@, final(self).body_ctx@ == old(self).body_ctx@, final(self).body_tail@ == old(self).body_tail@, final(self).calls@ == old(self).calls@,
     { unimplemented!() }
     #[verifier::external_body]
     pub fn add_scope_kills(&mut self, b: BlockId, s: ScopeId)
-        ensures final(self).term@ == old(self).term@, final(self).next@ == old(self).next@, final(self).pre@ == old(self).pre@,
+        ensures final(self).term@ == old(self).term@, final(self).next@ == old(self).next@, final(self).pre@ == old(self).pre@, final(self).stmt_at@ == old(self).stmt_at@,
                 final(self).body_start@ == old(self).body_start@, final(self).body_ctx@ == old(self).body_ctx@, final(self).body_tail@ == old(self).body_tail@, final(self).calls@ == old(self).calls@,
     { unimplemented!() }
 }
@@ -127,6 +128,9 @@ UNIT = VUnit(
               ensures=["res.block is Some",
                        "final(g).pre@ is Some && final(g).term@.dom().contains(final(g).pre@->Some_0) && final(g).term@[final(g).pre@->Some_0] is Goto",
                        "final(g).term@.dom().contains(cond_of(final(g))) && final(g).term@[cond_of(final(g))] is Branch",
+                       # the loop statement's op -- the condition's reads -- is in the condition block, which every round passes (so what the
+                       # condition reads is live around the back edge)
+                       "final(g).stmt_at@ == Some(cond_of(final(g)))",
                        "final(g).term@[cond_of(final(g))]->Branch_else_target == res.block->Some_0",
                        "final(g).body_start@ == Some(entry_of(final(g)))",
                        # comot leaves the loop, next re-evaluates the condition
@@ -135,7 +139,7 @@ UNIT = VUnit(
                        "old(g).fresh(cond_of(final(g))) && old(g).fresh(res.block->Some_0) && old(g).fresh(entry_of(final(g)))",
                        "cond_of(final(g)) != res.block->Some_0 && cond_of(final(g)) != entry_of(final(g)) && res.block->Some_0 != entry_of(final(g))"],
               rewrites=[Rw("R9", r"self\.facts\.scope_of_block\(body\)\.expect\(\"Each loop body should map to a scope\"\)", "g.scope_of_loop_body(body)", min_matches=1),
-                        Rw("R9", r"self\.push_stmt\(program, cond_block, stmt, \*span, parent_stmt\)", "g.push_stmt(program, cond_block, parent_stmt)", min_matches=1),
+                        Rw("R9", r"self\.push_stmt\(program, (\w+), stmt, \*span, parent_stmt\)", r"g.push_stmt(program, \1, parent_stmt)", min_matches=1),
                         Rw("R9", r"self\.branch_terminator\(stmt_id, \*span, ", "g.branch_terminator(stmt_id, ", min_matches=1),
                         Rw("R9", r"self\.(ensure_block|new_block|set_terminator|lower_block|add_scope_kills)\(", r"g.\1(", min_matches=8)],
               real_name="FunctionBuilder::lower_stmt (Stmt::Loop arm: shape of the lowered loop)"),
